@@ -498,6 +498,93 @@ def connect_expected(st):
 
 
 
+class RelayHooks(QHooks):
+    """spawn.c main() with one delivery slot, through one round of the select loop: what happens to the bytes a child wrote"""
+    def __init__(self):
+        self.bad = None
+        self.rounds = 0
+        self.reads = 0
+
+    def tracked_global(self, path):
+        return True
+
+    def precise_arith(self, path):
+        return True
+
+    def materialize(self, E, path):
+        if path == 'G:auto_spawn':
+            return fs(1)
+        if path == 'G:flagreading':
+            return fs(1)
+        if path == 'G:truncreport':
+            return fs(3000)
+        return TOP
+
+    def _ok0(self, E, x, args):
+        return [Outcome(ret=fs(0))]
+
+    prim_chdir = _ok0
+
+    def _one(self, E, x, args):
+        return [Outcome(ret=fs(1))]
+
+    prim_stralloc_copys = prim_stralloc_cats = _one
+
+    def prim_malloc(self, E, x, args):
+        return [Outcome(ret=fs(('&', 'D[0]')))]
+
+    prim_alloc = prim_malloc
+
+    def _n(self, E, x, args):
+        return [Outcome(ret=TOP)]
+
+    prim_substdio_fdbuf = prim_sig_pipeignore = prim_sig_childcatch = prim_initialize = prim_substdio_putflush = prim_sig_childunblock = prim_sig_childblock = _n
+    prim_substdio_put = prim_substdio_flush = prim_report = prim_close = prim_str_len = prim_strlen = prim_sig_catch = prim_sig_block = prim_sig_unblock = _n
+
+    def prim_getcmd(self, E, x, args):
+        return [Outcome(ret=TOP, sets={'D[0].used': fs(1), 'D[0].fdin': fs(7), 'D[0].output.len': fs(40), 'D[0].output.s': fs(('&', 'OUT[0]'))}, log='a delivery is running in slot 0; 40 bytes of its report collected so far')]
+
+    def check(self, E, x):
+        r = g1(E, '$r')
+        if r:
+            ok = g1(E, '$copied') == (('&', 'OUT[40]'), r) and g1(E, 'D[0].output.len') == 40 + r
+            if not ok and self.bad is None:
+                self.bad = ('%d bytes were read from the child and the round ends with %s copied and the collected length %s (documented: appended behind the 40 bytes already collected, length %d): the report relayed to qmail-send has a hole, and its first letter decides the verdict' %
+                            (r, g1(E, '$copied'), g1(E, 'D[0].output.len'), 40 + r), E.trace.list())
+
+    def prim_select(self, E, x, args):
+        self.rounds += 1
+        if g1(E, '$round', 0) >= 1:
+            self.check(E, x)
+            return 'noreturn'
+        return [Outcome(ret=fs(1), sets={'$round': fs(1)})]
+
+    def prim__exit(self, E, x, args):
+        self.check(E, x)
+        return 'noreturn'
+
+    def prim_read(self, E, x, args):
+        self.reads += 1
+        if g1(E, '$r') is not None:
+            return 'noreturn'
+        return [Outcome(ret=fs(-1), sets={'$r': fs(0)}), Outcome(ret=fs(0), sets={'$r': fs(0)}), Outcome(ret=fs(5), sets={'$r': fs(5)}, log='the child wrote 5 bytes')]
+
+    def prim_stralloc_readyplus(self, E, x, args):
+        if g1(E, '$rpfail', 0) >= 2:
+            return [Outcome(ret=fs(1))]
+        return [Outcome(ret=fs(1)), Outcome(ret=fs(0), sets={'$rpfail': fs(g1(E, '$rpfail', 0) + 1)}, log='no memory for the report right now')]
+
+    def prim_sleep(self, E, x, args):
+        return [Outcome(ret=TOP)]
+
+    def prim_byte_copy(self, E, x, args):
+        dst, n = args[0], args[1]
+        dst = next(iter(dst)) if dst is not TOP and len(dst) == 1 else None
+        n = next(iter(n)) if n is not TOP and len(n) == 1 else None
+        return [Outcome(ret=TOP, sets={'$copied': fs((dst, n))})]
+
+
+
 def run(ctx):
     db, rep = ctx.db, ctx.report
     prog = db.program('qmail-remote')
@@ -630,6 +717,18 @@ def run(ctx):
         names = [s_[0] for s_ in seq]
         ok = eof and names[:4] == ['substdio_put', 'report', 'substdio_put', 'substdio_flush'] and seq[2][1] == '' and seq[2][2] == 1 and seq[0][2] == 1
         r5.check(ok, 'one-report-group-per-child-EOF', c.where, 'expected put(delnum) report() put(NUL) flush when the child\'s pipe is at end of file; found %s (eof-guard=%s)' % (seq[:5], eof))
+    # ---- 7 the spawner collects every byte of the child's report
+    r7 = rep.rule('C09.7-report-collection', 'R-TYPESTATE', 'spawn.c main (one slot, one round of the select loop, allocation failing up to twice): bytes read from a delivery child are appended to its collected report before the round ends, whatever the allocator does')
+    smf = pr.fn('main', 'spawn.c')
+    RH = RelayHooks()
+    e7 = Engine(db, pr, RH, max_states=400000)
+    e7.run(smf, {})
+    rep.count_states(e7.states, e7.transitions)
+    if (RH.reads < 1 or RH.rounds < 2) and RH.bad is None:
+        raise AnalysisBroken('spawn.c main: relay loop not explored (%d reads, %d select calls)' % (RH.reads, RH.rounds))
+    r7.check(RH.bad is None, 'bytes-read-from-the-child-are-appended-before-the-round-ends', 'spawn.c:main', RH.bad[0] if RH.bad else '', RH.bad[1] if RH.bad else None)
+    r7.expect_min(1)
+
     # ---- 6 connect phase
     r6 = rep.rule('C09.6-connect-phase', 'R-TABLE', 'qmail-remote main over MX geometries (0..2 addresses, equal/different preferences, own addresses, back-off table, socket/connect outcomes, smtproutes or not): DNS soft/memory trouble and connect trouble are temporary, DNS hard errors, no MX and "I am the best MX" are permanent; hosts are tried in order, skipping only backed-off ones')
     prm = db.program('qmail-remote')
